@@ -33,7 +33,7 @@ GEN_SEEK = {OV['FALSE'], OV['EOF'], OV['EBADPACKET']}                           
 def judge_op(op, tok, mode, opened):
     """Returns None if the result token is in the accepted set of that function, else a short reason."""
     k = op[:2]
-    if k in ('rf', 'ri', 'rb', 'rB'):
+    if k in ('rf', 'ri', 'rb', 'rB', 'RB', 'RE', 'RN'):
         v = int(tok)
         if v >= 0 or v in DOC_READ:
             return None
@@ -130,10 +130,12 @@ class Files:
 
 
 # depth-1 alphabets (every file x all five open modes) and depth-2 alphabets (every opened handle, modes s and n)
-ALPHA_Q = ['rf4096', 'ri64', 'ps%500', 'ps%1000', 'pp%0', 'rs%500', 'rs%1000-1', 'ts%500', 'PS%300', 'TP%800', 'h1', 'x-1', 'x0', 'XL0', 'XR0', 'cl']
+# RB/RE/RN<n>: macro reads (across a link boundary / to EOF / n packets) so that depth-2 sequences start from handles that have
+# streamed into the next link or sit at EOF
+ALPHA_Q = ['rf4096', 'RB', 'RE', 'RN3', 'bi', 'ri64', 'ps%500', 'ps%1000', 'pp%0', 'rs%500', 'rs%1000-1', 'ts%500', 'PS%300', 'TP%800', 'h1', 'x-1', 'x0', 'XL0', 'XR0', 'cl']
 ALPHA_Q2 = [o for o in ALPHA_Q if o not in ('ri64', 'x-1')]
-ALPHA_T = ALPHA_Q + ['rf1', 'rb7', 'rB4096', 'ps-1', 'ps%1000+1', 'pp%500', 'rs0', 'tp%500', 'RS%500', 'PP%900', 'TS%500', 'h0', 'bi', 'x1', 'x9', 'XE0', 'XF0']
-ALPHA_T2 = ALPHA_Q2 + ['rf1', 'ps%1000+1', 'pp%500', 'rs0', 'RS%500', 'PP%900', 'TS%500', 'h0', 'bi', 'x1', 'XE0']
+ALPHA_T = ALPHA_Q + ['rf1', 'rb7', 'rB4096', 'ps-1', 'ps%1000+1', 'pp%500', 'rs0', 'tp%500', 'RS%500', 'PP%900', 'TS%500', 'h0', 'x1', 'x9', 'XE0', 'XF0']
+ALPHA_T2 = ALPHA_Q2 + ['rf1', 'ps%1000+1', 'pp%500', 'rs0', 'RS%500', 'PP%900', 'TS%500', 'h0', 'x1', 'XE0']
 
 
 class Meta(tuple):
@@ -284,6 +286,7 @@ def run(tier):
             if new:
                 for mode in 'sn':
                     add_case('D', fi, mode, ('x0', 'rf4096', 'ps%1000', f'x{len(seq) - 1}', 'rf4096', 'RS%500'), ('chain', sp + str(len(seq))))
+                    add_case('D', fi, mode, ('RB', 'bi', 'x0', 'RB', 'bi', 'RE', 'bi', 'x0', 'h1'), ('chain', sp + str(len(seq))))
 
     # ---------------------------------------------------------------- E. pre-read initial/ibytes buffers
     for b in ('B1', 'B3', 'BM', 'BT'):
